@@ -193,6 +193,7 @@ func (ex *exec) mapDelete(m *omap, k value) {
 func (ex *exec) checkHashable(k value) {
 	switch k := k.(type) {
 	case iface:
+		k = ex.force(k)
 		if k.t == nil {
 			return
 		}
@@ -268,7 +269,8 @@ func (ex *exec) eqTerm(t types.Type, x, y value) *Term {
 		}
 		return r
 	case iface:
-		y := y.(iface)
+		x = ex.force(x)
+		y := ex.force(y.(iface))
 		if (x.t == nil) != (y.t == nil) || (x.t != nil && !identical(x.t, y.t)) {
 			return tt.Bool(false)
 		}
